@@ -7,9 +7,12 @@ Text protocol for the parse models.
   ps slice|set <empty 0/1> <tok>*    → ok <hex>,… | ok . | err
   ps map|mmap <tok>*                 → ok <hexk>=<hexv>,… | ok . | err
   tok ::= s:<hex> | S | w:<hex> | , | : | o | e | x
+  ps scan slice|map <hex text>       → toks <tok>* | ood        (character-level scanner model, ASCII text)
+  ps quote <hex text>                → ok <hex text> | ood      (strconv.Quote, ASCII)
 -/
 import DialsModel.Model.ParseInt
 import DialsModel.Model.Split
+import DialsModel.Model.Scan
 import DialsModel.Model.Proto
 
 namespace Dials.Parse
@@ -31,6 +34,16 @@ def parseTok (t : String) : Option Tok :=
   else if t.startsWith "s:" then (hexDecode (t.drop 2).toString).map fun s => .str (some s)
   else if t.startsWith "w:" then (hexDecode (t.drop 2).toString).map .word
   else none
+
+def tokOut : Tok → String
+  | .str none => "S"
+  | .str (some s) => "s:" ++ hexEnc s
+  | .word w => "w:" ++ hexEnc w
+  | .comma => ","
+  | .colon => ":"
+  | .other => "o"
+  | .eof => "e"
+  | .scanErr => "x"
 
 def listOut : Outcome (List S) → String
   | .ok ws => "ok " ++ hexListEnc ws
@@ -78,6 +91,18 @@ def handlePs : List String → String
   | "mmap" :: toks =>
     match toks.mapM parseTok with
     | some ts => pairsOut (mapStringStringSlice ts)
+    | none => "bad-op"
+  | ["scan", what, h] =>
+    match hexDecode h with
+    | some s =>
+      if !allAscii s then "ood" else
+      match scanText (what == "map") s with
+      | some ts => "toks " ++ String.intercalate " " (ts.map tokOut)
+      | none => "ood"
+    | none => "bad-op"
+  | ["quote", h] =>
+    match hexDecode h with
+    | some s => if allAscii s then "ok " ++ hexEnc (quote s) else "ood"
     | none => "bad-op"
   | _ => "bad-op"
 
